@@ -289,9 +289,34 @@ def init_specs() -> list[dict]:
     return out
 
 
+def manual_specs() -> list[dict]:
+    """The caller drives the tree with run_step() itself (never consulting the global condition at the loop head), or goes
+    on stepping after run() has returned: the lifecycle, accounting, structure, limit and report clauses keep applying."""
+    out = []
+    n = 0
+    base = {"dim": 2, "box": "sym", "fn": "multi", "maximize": False}
+    rows = [
+        ([{"engine": "SEA", "pop": 6, "gens": 2}, {"engine": "CMA", "gens": 2, "lsc": {"kind": "MetaepochLimit", "n": 2}}],
+         {"kind": "simple", "far": 0.02, "limit": 2}),
+        ([{"engine": "DE", "pop": 6, "gens": 1}, {"engine": "SEA", "pop": 5, "gens": 2, "lsc": {"kind": "MetaepochLimit", "n": 2}}, {"engine": "LOCAL", "maxiter": 2}],
+         {"kind": "nbc", "gen": 1.0, "trunc": 1.0, "fil": 0.5, "limit": 2}),
+        ([{"engine": "SHADE", "pop": 6, "gens": 1, "mem": 2}, {"engine": "DE", "pop": 5, "gens": 1, "lsc": {"kind": "MetaepochLimit", "n": 3}}],
+         {"kind": "composed", "generator": "nbc", "gen": 1.0, "trunc": 1.0, "deme_filters": [["demelimit", 2]], "tree_filters": [["levellimit", 3]]}),
+    ]
+    for levels, sprout in rows:
+        for gsc in ({"kind": "MetaepochLimit", "n": 3}, {"kind": "SingularEvalLimit", "n": 60}):
+            for drive in (["steps", 5], ["run+steps", 2]):
+                for hib in (False, True):
+                    n += 1
+                    out.append(dict(base, name=f"manual{n}", seed=900 + n, levels=[dict(l) for l in levels], sprout=dict(sprout), gsc=dict(gsc),
+                                    drive=drive, hibernation=hib, reports=(n % 2 == 0), fn=["multi", "funnels", "plateau"][n % 3],
+                                    maximize=(n % 5 == 0), idlecheck=False))
+    return out
+
+
 def gen_specs(seed: int, n_random: int, tier: str = "quick") -> list[dict]:
     r = random.Random(seed)
-    specs = repo_test_specs() + sweep_specs(tier) + lifecycle_specs() + engine_specs() + init_specs()
+    specs = repo_test_specs() + sweep_specs(tier) + lifecycle_specs() + engine_specs() + init_specs() + manual_specs()
     for i in range(n_random):
         specs.append(random_spec(r, i))
     return specs
